@@ -15,6 +15,17 @@ MISS_LEFT / MISS_RIGHT and UNK_LOC+BETWEEN in GenBank locations, UNK_LOC /
 BETWEEN on a single base, any defect and valueless qualifiers in GFF3, double
 quotes in GenBank qualifier values (counted), feature keys > 15 characters,
 field names > 12 characters, empty GenBank sequences.
+
+Kept out as well, because neither the property nor a docstring fixes what happens to them
+(audit notes/audit/C12.md, section A): GFF3 entries with start > end, a blank in the seqid, empty
+or blank-padded attribute tags, non-finite scores (scores are compared to 6 significant digits);
+FASTQ scores below the lowest score of the format (Solexa -5, the others 0); score lists (instead
+of arrays) outside the mapping interface; GenBank feature keys that are not identifiers, blanks
+at the ends of qualifier value lines and of field content lines, lower-case field names,
+subfields for FEATURES / ORIGIN; the empty include_only list; non-ASCII headers in real files.
+An edit outside the domain (unencodable scores, length mismatch, set_annotation on a file with
+two FEATURES fields) may be refused with any exception or accepted - afterwards only the
+consistency of text and view is judged (labels say which outcome occurred).
 """
 
 import io
@@ -141,8 +152,10 @@ def _want_set(features):
 
 
 def _show_set(s):
+    # key=repr on both levels: qualifier values mix None and str, which do not order
     return sorted(
-        (k, sorted((a, b, c, sorted(d)) for a, b, c, d in locs), sorted(q, key=repr)) for k, locs, q in s
+        ((k, sorted(((a, b, c, sorted(d)) for a, b, c, d in locs), key=repr), sorted(q, key=repr)) for k, locs, q in s),
+        key=repr,
     )
 
 
@@ -212,6 +225,20 @@ def st_feature_key():
         st.sampled_from(["regulatory", "a/b", "k=v", "50%", "x%41y", "CDS%3B", "#tag", "abcdefghijklmno"]),
         st.text(ASCII_GRAPH, min_size=1, max_size=15),
         st.text(ASCII_GRAPH, min_size=1, max_size=4),
+    )
+
+
+GB_KEY_CHARS = "abcdefghijklmnopqrstuvwxyzABCDEFGHIJKLMNOPQRSTUVWXYZ0123456789_-'*"
+
+
+def st_gb_feature_key():
+    """GenBank / GenPept feature keys: identifiers as the feature table definition uses them
+    (letters, digits, '_', '-', "'", '*'); '/', '=', '"', '%' ... only occur in GFF3 types."""
+    return st.one_of(
+        st.sampled_from(["CDS", "gene", "misc_feature", "source", "3'UTR", "5'UTR", "-10_signal", "-35_signal", "D-loop", "Region"]),
+        st.sampled_from(["regulatory", "mat_peptide", "V_segment", "abcdefghijklmno", "x", "Site"]),
+        st.text(GB_KEY_CHARS, min_size=1, max_size=15).filter(lambda k: any(c.isalnum() for c in k)),
+        st.text(GB_KEY_CHARS, min_size=1, max_size=4).filter(lambda k: any(c.isalnum() for c in k)),
     )
 
 
@@ -329,9 +356,23 @@ def run_fasta(case):
 # (b) FASTQ
 # --------------------------------------------------------------------------
 SCORE_CHARS = ASCII_GRAPH + "@+" * 12 + "!~" * 3
+# lowest score character of each format ("score arrays in range"): Sanger / Illumina-1.8 scores
+# start at 0 = '!', Solexa at -5 = ';', Illumina-1.3/1.5 at 0 = '@'.  A bare offset 64 is given
+# the Solexa range.  All formats end at '~' or above.
+FASTQ_MIN_CHAR = {33: "!", "Sanger": "!", "Illumina-1.8": "!", 64: ";", "Solexa": ";", "Illumina-1.3": "@", "Illumina-1.5": "@"}
 
 
-def st_fastq_entry(draw, maxlen, kinds=("nuc", "ambig")):
+def _score_chars(offset):
+    """The score characters of a format, with the characters that matter at line starts and
+    the two ends of the range boosted ('+' is below the range of the offset-64 formats)."""
+    lo = FASTQ_MIN_CHAR[offset]
+    if lo == "!":
+        return SCORE_CHARS
+    chars = "".join(chr(c) for c in range(ord(lo), 127))
+    return chars + "@" * 20 + (lo + "~") * 3 + (";<=>?" * 3 if lo == ";" else "")
+
+
+def st_fastq_entry(draw, maxlen, kinds=("nuc", "ambig"), score_chars=SCORE_CHARS):
     """Returns (kind, seq, score characters, narrowed)."""
     n = draw(st.one_of(st.integers(1, 8), st.integers(1, maxlen)))
     narrowed = 0
@@ -344,11 +385,11 @@ def st_fastq_entry(draw, maxlen, kinds=("nuc", "ambig")):
     kind = draw(st.sampled_from(kinds))
     if n <= 8:
         s = draw(st.text(ALPHABETS[kind], min_size=n, max_size=n))
-        q = draw(st.text(SCORE_CHARS, min_size=n, max_size=n))
+        q = draw(st.text(score_chars, min_size=n, max_size=n))
     else:
         seed = draw(st.integers(0, 2**32 - 1))
         s = _bulk(ALPHABETS[kind], seed, n)
-        q = _bulk(SCORE_CHARS, seed + 1, n)
+        q = _bulk(score_chars, seed + 1, n)
     return kind, s, q, narrowed
 
 
@@ -358,20 +399,24 @@ def st_fastq(tier):
     @st.composite
     def gen(draw):
         api = draw(st.sampled_from(["mapping", "set_sequences", "set_sequence", "write_iter"]))
+        offset = draw(st.sampled_from([33, 64] + sorted(FASTQ_OFFSETS)))
         n = draw(st.integers(1, 4))
         headers = draw(st.lists(st_header(), min_size=n, max_size=n, unique=True))
         entries = []
         narrowed = 0
         for h in headers:
-            kind, s, q, nar = st_fastq_entry(draw, maxlen)
+            kind, s, q, nar = st_fastq_entry(draw, maxlen, score_chars=_score_chars(offset))
             narrowed += nar
             entries.append({"h": h, "kind": kind, "s": s, "q": q})
+        # a Python list of scores is shown only for the mapping interface (class example); the
+        # other entry points document `ndarray`
+        containers = ["list", "int64", "int8", "int32"] if api == "mapping" else ["int64", "int64", "int8", "int32"]
         return {
-            "offset": draw(st.sampled_from([33, 64] + sorted(FASTQ_OFFSETS))),
+            "offset": offset,
             "cpl": draw(st.one_of(st.none(), st_cpl(), st.integers(1, 6))),
             "api": api,
             "as_rna": draw(st.booleans()) if api in ("set_sequences", "set_sequence") else False,
-            "score_type": draw(st.sampled_from(["list", "int64", "int8", "int32"])),
+            "score_type": draw(st.sampled_from(containers)),
             "entries": entries,
             "narrowed_F1": narrowed,
         }
@@ -452,15 +497,19 @@ def run_fastq(case):
         o.check_eq(_fastq_items(f.items()), want, "fastq_live_view", "items of the filled object")
         text = _written(f)
 
-    # the score characters in the text are chr(score + offset of the named format)
-    want_lines = []
-    for e in entries:
-        want_lines += ["@" + e["h"]] + _wrap(file_string(e), cpl) + ["+"] + _wrap(e["q"], cpl)
-    got_lines = text.split("\n")[:-1]
-    same = len(got_lines) == len(want_lines) and all(
-        g == w or (w == "+" and g.startswith("+")) for g, w in zip(got_lines, want_lines)
-    )
-    o.check(same, "fastq_score_encoding_and_layout", lambda: f"text lines {got_lines!r}, want {want_lines!r}")
+    # the score characters in the text are chr(score + offset of the named format), sequence and
+    # scores broken after chars_per_line characters.  Blank lines are not judged (the readers skip
+    # them), and nothing is prescribed for the lines of an empty read (no docstring fixes them).
+    if all(len(e["s"]) > 0 for e in entries):
+        want_lines = []
+        for e in entries:
+            want_lines += ["@" + e["h"]] + _wrap(file_string(e), cpl) + ["+"] + _wrap(e["q"], cpl)
+        got_lines = [l for l in text.split("\n") if l]
+        same = len(got_lines) == len(want_lines) and all(
+            g == w or (w == "+" and g.startswith("+")) for g, w in zip(got_lines, want_lines)
+        )
+        o.check(same, "fastq_score_encoding_and_layout", lambda: f"text lines {got_lines!r}, want {want_lines!r}")
+        o.label("layout_compared")
 
     r = fastq.FastqFile.read(io.StringIO(text), offset=offset)
     o.check_eq(_fastq_items(r.items()), want, "fastq_entries_in_order", "FastqFile.read(...).items()")
@@ -486,12 +535,18 @@ def run_fastq(case):
     )
     s0, sc0 = fastq.get_sequence(r)
     o.check_eq((str(s0), [int(x) for x in sc0]), (entries[0]["s"], want[0][2]), "fastq_entries_in_order", "get_sequence()")
-    # the caller owns the returned score arrays: editing them in place must not change what the
-    # file object - or a later parse of the same text - returns
+    for e, w in zip(entries, want):
+        sh, sch = fastq.get_sequence(r, header=e["h"])
+        o.check_eq((str(sh), [int(x) for x in sch]), (e["s"], w[2]), "fastq_symbols", f"get_sequence(header={e['h']!r})")
+        o.check_eq(r.get_seq_string(e["h"]), w[1], "fastq_symbols", f"get_seq_string({e['h']!r})")
+        o.check_eq([int(x) for x in r.get_quality(e["h"])], w[2], "fastq_scores", f"get_quality({e['h']!r})")
+    # the caller may edit the returned score arrays in place: a later parse of the same text must
+    # still give the written scores (nothing may be shared between parses).  Whether the *same*
+    # file object hands out copies or views of a cache is not stated anywhere: only labelled.
     for h, (_, sc) in r.items():
         if isinstance(sc, np.ndarray) and sc.flags.writeable and len(sc):
             sc[...] = 99
-    o.check_eq(_fastq_items(r.items()), want, "fastq_scores", "items() after the previously returned score arrays were edited in place")
+    o.label("same_object_unaffected_by_inplace_edit" if _fastq_items(r.items()) == want else "same_object_shares_returned_arrays")
     r3 = fastq.FastqFile.read(io.StringIO(text), offset=offset)
     o.check_eq(_fastq_items(r3.items()), want, "fastq_scores", "second parse of the same text after returned score arrays were edited in place")
 
@@ -540,7 +595,9 @@ def st_gb_value():
     line = st.text(GB_VALUE_CHARS, max_size=12)
 
     def build(lines):
-        raw = "\n".join(lines)
+        # blanks at the ends of a value line are not judged (continuation lines are broken and
+        # joined at blanks); blanks inside a line are ("qualifiers with spaces")
+        raw = "\n".join(l.strip() for l in lines)
         return (raw.replace('"', "'"), raw.count('"'))
 
     return st.one_of(
@@ -569,7 +626,7 @@ def st_gb_feature():
             v, n = draw(st_gb_value())
             removed += n
             qual.append([k, v])
-        return {"key": draw(st_feature_key()), "locs": locs, "qual": qual}, removed
+        return {"key": draw(st_gb_feature_key()), "locs": locs, "qual": qual}, removed
 
     return gen()
 
@@ -676,6 +733,8 @@ def run_genbank(case):
         )
         o.check_eq(aseq.sequence_start, case["seqstart"], "genbank_sequence_start", "sequence_start")
         o.check_eq(str(gb.get_sequence(g, format=fmt)), case["seq"], "genbank_sequence", "get_sequence()")
+        # the raw string is "unaltered" (set_sequence writes lower case; the case is not judged)
+        o.check_eq(gb.get_raw_sequence(g).upper(), case["seq"].upper(), "genbank_sequence", "get_raw_sequence()")
     else:
         parsed, notes = _get_annotation_noted(lambda: gb.get_annotation(g))
         got = _annotation_set(parsed)
@@ -685,9 +744,11 @@ def run_genbank(case):
         lambda: f"got {_show_set(got)}, want {_show_set(want)}, warnings {notes}, text {text!r}",
     )
 
-    # include_only: exactly the features with one of the given keys, in either container type
+    # include_only ("names of feature keys, which should included"): exactly the features with one
+    # of the given keys, in either container type.  The empty list is not given (its meaning - no
+    # feature or no filter - is not stated).
     keys = sorted({ft["key"] for ft in features})
-    filters = [[]] + [[k] for k in keys] + ([keys[:-1], tuple(keys[1:])] if len(keys) > 1 else []) + [["verif_absent_key"]]
+    filters = [[k] for k in keys] + ([keys[:-1], tuple(keys[1:])] if len(keys) > 1 else []) + [["verif_absent_key"]]
     for flt in filters:
         for obj, what in ((f, "filled file"), (g, "parsed file")):
             sel, notes = _get_annotation_noted(lambda: gb.get_annotation(obj, include_only=flt))
@@ -696,6 +757,14 @@ def run_genbank(case):
                 _annotation_set(sel) == want_sel,
                 "genbank_include_only",
                 lambda: f"get_annotation({what}, include_only={flt!r}) = {_show_set(_annotation_set(sel))}, want {_show_set(want_sel)} {notes}",
+            )
+        if case["with_seq"]:
+            asel, notes = _get_annotation_noted(lambda: gb.get_annotated_sequence(g, format=fmt, include_only=flt))
+            want_sel = frozenset(t for t in want if t[0] in flt)
+            o.check(
+                _annotation_set(asel.annotation) == want_sel and str(asel.sequence) == case["seq"],
+                "genbank_include_only",
+                lambda: f"get_annotated_sequence(include_only={flt!r}) = {_show_set(_annotation_set(asel.annotation))}, want {_show_set(want_sel)} {notes}",
             )
     if len(keys) > 1:
         o.label("include_only_excludes_some")
@@ -733,7 +802,9 @@ def st_gff_text(min_size=0, max_size=8):
 def st_gff_attrib(max_size=3, forbid=()):
     return st.lists(
         st.tuples(
-            st.one_of(st.sampled_from(["Name", "Parent", "Note", "Dbxref", "gbkey"]), st_gff_text(0, 6)),
+            # tags: non-empty, no outer blanks (the writer strips the seqid / source / type columns; it
+            # may do the same to a tag)
+            st.one_of(st.sampled_from(["Name", "Parent", "Note", "Dbxref", "gbkey"]), st_gff_text(1, 6).map(lambda k: k.strip() or "k")),
             st_gff_text(),
         ),
         max_size=max_size,
@@ -747,6 +818,27 @@ def st_gff_column():
         st.sampled_from(["chr1", "NC_000913.3", "Biotite", "#hash", "a b", "x>y", "semi;colon", "100%", "%41"]),
         st_gff_text(1, 8).map(str.strip).filter(lambda s: len(s) > 0 and s[0] != ">"),
     )
+
+
+def st_gff_seqid():
+    """seqid: as above and without a blank inside (GFF3 forbids an unescaped blank in the seqid,
+    gff.set_annotation refuses it with ValueError)."""
+    return st_gff_column().map(lambda s: s.replace(" ", "_"))
+
+
+def st_gff_score():
+    """Score column ("float or None"): finite, at most 6 significant digits - the exact text of
+    the number is not promised, see _gff_score_key."""
+    return st.one_of(
+        st.none(),
+        st.integers(-1000, 1000).map(float),
+        st.floats(-1e9, 1e9, allow_nan=False, allow_infinity=False).map(lambda x: float("%.6g" % x)),
+        st.sampled_from([0.0, 1e-300, 12.5, 1e-5, 3.2e-42, 6.02e23]),
+    )
+
+
+def _gff_score_key(score):
+    return None if score is None else float("%.6g" % score)
 
 
 def st_gff_annotation(tier):
@@ -766,8 +858,13 @@ def st_gff_annotation(tier):
             if nloc > 1 or draw(st.booleans()):
                 qual.insert(draw(st.integers(0, len(qual))), ["ID", ids[i]])
             features.append({"key": draw(st_feature_key().map(str.strip).filter(len)), "locs": locs, "qual": qual})
-        seqid = draw(st.one_of(st.none(), st_gff_column().filter(lambda s: " " not in s)))
-        return {"features": features, "seqid": seqid, "source": draw(st.one_of(st.none(), st_gff_column()))}
+        seqid = draw(st.one_of(st.none(), st_gff_seqid()))
+        return {
+            "features": features,
+            "seqid": seqid,
+            "source": draw(st.one_of(st.none(), st_gff_column())),
+            "is_stranded": draw(st.sampled_from([None, True, True, False])),
+        }
 
     return gen()
 
@@ -781,10 +878,16 @@ def run_gff_annotation(case):
 
     o = Outcome()
     features = case["features"]
+    stranded = case.get("is_stranded")
+    if stranded is False:
+        # "Otherwise the strand column is filled with '.'": every location comes back without strand
+        features = [dict(f, locs=[dict(l, strand=None) for l in f["locs"]]) for f in features]
     want = _want_set(features)
     g = gff.GFFFile()
-    gff.set_annotation(g, _mk_annotation(features), seqid=case["seqid"], source=case["source"])
-    nloc = sum(len(locs) for _, locs, _ in want)
+    kwargs = {} if stranded is None else {"is_stranded": stranded}
+    gff.set_annotation(g, _mk_annotation(case["features"]), seqid=case["seqid"], source=case["source"], **kwargs)
+    # one entry per location of every distinct feature that was handed in (an Annotation is a set)
+    nloc = sum(len(locs) for _, locs, _ in _want_set(case["features"]))
     o.check_eq(len(g), nloc, "gff_one_entry_per_location", "number of entries")
     live = _annotation_set(gff.get_annotation(g))
     o.check(live == want, "gff_live_view", lambda: f"got {_show_set(live)}, want {_show_set(want)}")
@@ -793,6 +896,16 @@ def run_gff_annotation(case):
     got = _annotation_set(gff.get_annotation(r))
     o.check(got == want, "gff_features", lambda: f"got {_show_set(got)}, want {_show_set(want)}, text {text!r}")
     o.check_eq(len(r), nloc, "gff_one_entry_per_location", "number of entries after reading")
+    # the seqid / source columns carry what was given (the empty column is written as '.')
+    for name, col in (("seqid", 0), ("source", 1)):
+        if case[name] is not None:
+            for obj, what in ((g, "filled file"), (r, "parsed file")):
+                cols = {obj[i][col] for i in range(len(obj))}
+                o.check(cols <= {case[name]}, "gff_seqid_source", lambda: f"{name} column of the {what}: {sorted(cols)!r}, given {case[name]!r}")
+    if stranded is False:
+        o.label("is_stranded=False")
+        o.check(all(g[i][6] is None for i in range(len(g))), "gff_features", "strand column of an unstranded annotation")
+    o.label("seqid=None" if case["seqid"] is None else "seqid given", "source=None" if case["source"] is None else "source given")
 
     nt = False
     for f in features:
@@ -816,17 +929,18 @@ def run_gff_annotation(case):
 
 
 def st_gff_entry():
+    # start <= end (GFF3 demands it; a writer may refuse anything else)
     return st.tuples(
-        st_gff_column(),
+        st_gff_seqid(),
         st_gff_column(),
         st_feature_key().map(str.strip).filter(len),
         st_pos(),
-        st_pos(),
-        st.one_of(st.none(), st.floats(allow_nan=False), st.sampled_from([0.0, 1e-300, 12.5])),
+        st.one_of(st.just(0), st.integers(0, 5000)),
+        st_gff_score(),
         st.sampled_from(["+", "-", None]),
         st.sampled_from([None, 0, 1, 2]),
         st.one_of(st.none(), st_gff_attrib()),
-    ).map(list)
+    ).map(lambda t: list(t[:4]) + [t[3] + t[4]] + list(t[5:]))
 
 
 def st_gff_entries(tier):
@@ -850,12 +964,13 @@ def _gff_args(e):
 
 def _gff_model_entry(e):
     seqid, source, type_, start, end, score, strand, phase, attrib = e
-    return (seqid, source, type_, start, end, score, strand, phase, {} if attrib is None else {k: v for k, v in attrib})
+    return (seqid, source, type_, start, end, _gff_score_key(score), strand, phase, {} if attrib is None else {k: v for k, v in attrib})
 
 
 def _gff_view_entry(g, i):
+    # the score is compared to 6 significant digits: "float or None" is all the class states
     seqid, source, type_, start, end, score, strand, phase, attrib = g[i]
-    return (seqid, source, type_, start, end, score, _strand_str(strand), phase, attrib)
+    return (seqid, source, type_, start, end, _gff_score_key(score), _strand_str(strand), phase, attrib)
 
 
 def _gff_view(g):
@@ -891,7 +1006,9 @@ def run_gff_entries(case):
     text = _written(g)
     r = gff.GFFFile.read(io.StringIO(text))
     o.check_eq(_gff_view(r), want, "gff_entries_in_order", "entries after reading")
-    o.check_eq([d for d, _ in r.directives()], ["gff-version 3"], "gff_entries_in_order", "directives")
+    # the directives written by the constructor are read back as the live object reports them
+    o.check_eq(r.directives(), g.directives(), "gff_entries_in_order", "directives of the parsed file vs. the filled file")
+    o.label("directives=%d" % min(len(g.directives()), 2))
     nt = False
     for e in entries:
         nt |= _gff_entry_labels(o, e)
@@ -915,6 +1032,9 @@ def st_edit_fasta(tier):
             st.tuples(st.just("set"), st.integers(0, 7), seq),
             st.tuples(st.just("del"), st.integers(0, 7)),
             st.tuples(st.just("reload")),
+            # the MutableMapping mix-ins are built on the primitives above
+            st.tuples(st.sampled_from(["pop", "pop", "del"]), st.integers(0, 7)),
+            st.sampled_from([("reload",), ("reload",), ("clear",)]),
         ).map(list)
         return {
             "cpl": draw(st.one_of(st.integers(1, 8), st_cpl())),
@@ -927,11 +1047,15 @@ def st_edit_fasta(tier):
     return gen()
 
 
-def _mapping_history(o, case, new_file, reread, put, view, label_value, bad_put=None):
+def _mapping_history(o, case, new_file, reread, put, view_items, label_value, bad_put=None):
     """Shared interpreter for FastaFile / FastqFile histories.
 
     new_file() -> empty object; reread(text) -> parsed object; put(f, key, value);
-    view(f) -> list of (key, comparable value); label_value(value) -> model value."""
+    view_items(items) -> list of (key, comparable value); label_value(value) -> model value."""
+
+    def view(f):
+        return view_items(f.items())
+
     pool = case["pool"]
     model = {}
     f = new_file()
@@ -990,15 +1114,37 @@ def _mapping_history(o, case, new_file, reread, put, view, label_value, bad_put=
                 continue
             o.label("op=reload")
             f = reread(_written(f))
+        elif name == "pop":
+            if not model:
+                continue
+            keys = [h for h in pool if h in model]
+            h = keys[op[1] % len(keys)]
+            o.label("op=pop")
+            if len(model) >= 2:
+                nontrivial = True
+            got = f.pop(h)
+            o.check_eq(dict(view_items([(h, got)]))[h], model[h], "edit_view_equals_model", f"step {step}: value returned by pop({h!r})")
+            del model[h]
+        elif name == "clear":
+            o.label("op=clear")
+            f.clear()
+            model.clear()
         elif name == "set_invalid":
-            # an edit the file must refuse: whatever it does to the old entry, text and parsed view
-            # have to stay consistent afterwards (the model is re-synchronised from the file's own text)
+            # an edit outside the domain (scores no format can hold, or as many scores as the
+            # sequence is NOT long): refusing it with any exception, or accepting it in some
+            # way, is both allowed - whatever happens to the old entry, text and parsed view have
+            # to stay consistent afterwards (the model is re-synchronised from the file's own text)
             if bad_put is None:
                 continue
             h = pool[op[1] % len(pool)]
-            o.label("op=set_invalid_existing" if h in model else "op=set_invalid_new")
-            if o.expect_raises((ValueError, OverflowError, TypeError), lambda: bad_put(f, h), "invalid_edit_refused", f"step {step}: scores that cannot be encoded") is None:
-                return
+            kind = op[2] if len(op) > 2 else "score_100"
+            o.label("op=set_invalid_existing" if h in model else "op=set_invalid_new", "invalid=" + kind)
+            try:
+                bad_put(f, h, kind)
+            except Exception as e:  # noqa: BLE001 - any refusal is fine, see above
+                o.label("invalid_edit_refused:" + type(e).__name__)
+            else:
+                o.label("invalid_edit_accepted")
             text = str(f)
             model = dict(view(reread(text))) if text.strip() else {}
             nontrivial = nontrivial or len(model) >= 1
@@ -1022,7 +1168,7 @@ def run_edit_fasta(case):
         lambda: fasta.FastaFile(chars_per_line=cpl),
         lambda text: fasta.FastaFile.read(io.StringIO(text), chars_per_line=cpl),
         put,
-        lambda f: list(f.items()),
+        lambda items: list(items),
         lambda val: val[0],
     )
     return _done(o)
@@ -1034,11 +1180,12 @@ def st_edit_fastq(tier):
     @st.composite
     def gen(draw):
         pool = draw(st.lists(st_header(), min_size=2, max_size=4, unique=True))
+        offset = draw(st.sampled_from([33, 64, "Sanger", "Solexa"]))
         narrowed = 0
 
         def entry():
             nonlocal narrowed
-            _, s, q, nar = st_fastq_entry(draw, 30)
+            _, s, q, nar = st_fastq_entry(draw, 30, score_chars=_score_chars(offset))
             narrowed += nar
             return s, q
 
@@ -1047,17 +1194,20 @@ def st_edit_fastq(tier):
             init.append([draw(st.integers(0, 7)), *entry()])
         ops = []
         for _ in range(draw(st.integers(1, nops))):
-            kind = draw(st.sampled_from(["set", "set", "del", "reload", "set", "set_invalid"]))
+            kind = draw(st.sampled_from(["set", "set", "del", "reload", "set", "set_invalid", "set", "set", "del", "reload", "set", "set_invalid", "pop", "clear"]))
             if kind == "set":
                 ops.append(["set", draw(st.integers(0, 7)), *entry()])
-            elif kind == "del":
-                ops.append(["del", draw(st.integers(0, 7))])
+            elif kind in ("del", "pop"):
+                ops.append([kind, draw(st.integers(0, 7))])
             elif kind == "set_invalid":
-                ops.append(["set_invalid", draw(st.integers(0, 7))])
+                ops.append(["set_invalid", draw(st.integers(0, 7)), draw(st.sampled_from(["score_100", "score_100", "len_mismatch"]))])
+            elif kind == "clear":
+                ops.append(["clear"])
             else:
                 ops.append(["reload"])
         return {
-            "offset": draw(st.sampled_from([33, 64, "Sanger", "Solexa"])),
+            "offset": offset,
+            "score_type": draw(st.sampled_from(["list", "list", "int64", "int8"])),
             "cpl": draw(st.one_of(st.none(), st.integers(1, 8), st_cpl())),
             "pool": pool,
             "init": init,
@@ -1079,18 +1229,27 @@ def run_edit_fastq(case):
     offset = case["offset"]
     off = _offset_number(offset)
 
-    def put(f, h, val):
-        f[h] = val[0], _scores(val[1], off)
+    score_type = case.get("score_type", "list")
 
+    def put(f, h, val):
+        f[h] = val[0], _scores(val[1], off, score_type)
+
+    def bad_put(f, h, kind):
+        if kind == "len_mismatch":
+            f[h] = "ACGTA", _scores("IIII", off, score_type)
+        else:
+            f[h] = "ACGT", np.array([100, 3, 100, 5])
+
+    o.label("scores=" + score_type)
     _mapping_history(
         o,
         case,
         lambda: fastq.FastqFile(offset=offset, chars_per_line=cpl),
         lambda text: fastq.FastqFile.read(io.StringIO(text), offset=offset, chars_per_line=cpl),
         put,
-        lambda f: [(h, (s, [int(x) for x in sc])) for h, (s, sc) in f.items()],
+        lambda items: [(h, (s, [int(x) for x in sc])) for h, (s, sc) in items],
         lambda val: (val[0], [ord(c) - off for c in val[1]]),
-        bad_put=lambda f, h: f.__setitem__(h, ("ACGT", np.array([100, 3, 100, 5]))),
+        bad_put=bad_put,
     )
     if any(c in "@+" for op in case["ops"] if op[0] == "set" for c in _score_line_starts(op[3], cpl)):
         o.label("score_line_starts_with_@_or_+")
@@ -1200,12 +1359,15 @@ def run_edit_gff(case):
     return _done(o)
 
 
-GB_NAMES = ["LOCUS", "DEFINITION", "REFERENCE", "REFERENCE", "keywords", "A_B", "ABCDEFGHIJKL"]
-GB_SUBNAMES = ["ORGANISM", "AUTHORS", "TITLE", "journal", "PUBMED", "S", "ABCDEFGHIJ"]
+# field names as GenBank writes them: upper case (that the writer upper-cases other names is
+# nowhere stated, so no lower-case name is handed in)
+GB_NAMES = ["LOCUS", "DEFINITION", "REFERENCE", "REFERENCE", "KEYWORDS", "A_B", "ABCDEFGHIJKL"]
+GB_SUBNAMES = ["ORGANISM", "AUTHORS", "TITLE", "JOURNAL", "PUBMED", "S", "ABCDEFGHIJ"]
 
 
 def st_gb_content():
-    return st.lists(st.text(ASCII_PRINT + " " * 6 + UNI, max_size=14), min_size=1, max_size=3)
+    # blanks at the end of a content line are neither handed in nor judged (see _gb_rstrip)
+    return st.lists(st.text(ASCII_PRINT + " " * 6 + UNI, max_size=14).map(str.rstrip), min_size=1, max_size=3)
 
 
 def st_gb_subfields():
@@ -1248,23 +1410,37 @@ def _gb_model_field(field):
     name, content, subs = field
     name = name.upper()
     if name in ("FEATURES", "ORIGIN"):
-        # the content of these two fields is stored without indentation and they have no
-        # subfields; their lines must be indented to be part of the field at all
-        return {"name": name, "content": [" " * 5 + c for c in content], "subs": []}
-    return {"name": name, "content": list(content), "subs": [[k.upper(), list(v)] for k, v in (subs or [])]}
+        # the content of these two fields is stored without indentation and they "have no
+        # subfields" (none are handed in); their lines must be indented to be part of the field
+        return {"name": name, "content": [(" " * 5 + c).rstrip() for c in content], "subs": []}
+    return {"name": name, "content": [c.rstrip() for c in content], "subs": [[k.upper(), [c.rstrip() for c in v]] for k, v in (subs or [])]}
 
 
 def _gb_args(field):
     subs = field[2]
+    if field[0].upper() in ("FEATURES", "ORIGIN"):
+        subs = None
     return field[0], _gb_model_field(field)["content"], (None if subs is None else {k: list(v) for k, v in subs})
+
+
+def _gb_rstrip(lines):
+    """Content lines are compared without the blanks at their ends (a reader or writer that
+    strips them keeps text and view consistent)."""
+    return [str(l).rstrip() for l in lines]
 
 
 def _gb_view(f):
     out = []
     for i in range(len(f)):
         name, content, subs = f[i]
-        out.append((name, list(content), [[k, list(v)] for k, v in subs.items()]))
+        out.append((name, _gb_rstrip(content), [[k, _gb_rstrip(v)] for k, v in subs.items()]))
     return out
+
+
+def _gb_resync(fresh):
+    """Model of a file taken from the view of its own text (after an edit whose result is not
+    prescribed): names, contents and subfields as parsed, nothing known about the meaning."""
+    return [{"name": n, "content": c, "subs": s, "sem": None} for n, c, s in _gb_view(fresh)]
 
 
 def run_edit_genbank(case):
@@ -1323,6 +1499,20 @@ def run_edit_genbank(case):
             model.append(entry)
         return True
 
+    def unprescribed(call, what):
+        # set_annotation / set_sequence on a file with two FEATURES / ORIGIN fields: only
+        # GenBankFile.set_field documents InvalidFileError for this; the two functions may refuse
+        # with any exception or replace one of the fields.  Either way the file has to stay
+        # consistent: the model is taken from the view of the file's own text, and the checks
+        # after the step compare the live view with it.
+        try:
+            call()
+        except Exception as e:  # noqa: BLE001
+            o.label(f"{what}_on_duplicate_refused:" + type(e).__name__)
+        else:
+            o.label(f"{what}_on_duplicate_accepted")
+        model[:] = _gb_resync(reread(str(f)))
+
     nontrivial = False
     for step, op in enumerate(case["ops"]):
         name = op[0]
@@ -1371,15 +1561,15 @@ def run_edit_genbank(case):
             entry = {"name": "FEATURES", "content": None, "subs": [], "sem": _want_set(op[1])}
             if set_field_model("FEATURES", entry):
                 gb.set_annotation(f, _mk_annotation(op[1]))
-                nontrivial |= _gb_feature_labels(Outcome(), op[1])
+                nontrivial |= _gb_feature_labels(o, op[1])
             else:
-                o.expect_raises(InvalidFileError, lambda: gb.set_annotation(f, _mk_annotation(op[1])), "set_field_ambiguous_rejected", "set_annotation")
+                unprescribed(lambda: gb.set_annotation(f, _mk_annotation(op[1])), "set_annotation")
         elif name == "set_sequence":
             entry = {"name": "ORIGIN", "content": None, "subs": [], "sem": (op[1], op[2])}
             if set_field_model("ORIGIN", entry):
                 gb.set_sequence(f, _mk_sequence("ambig", op[1]), op[2])
             else:
-                o.expect_raises(InvalidFileError, lambda: gb.set_sequence(f, _mk_sequence("ambig", op[1]), op[2]), "set_field_ambiguous_rejected", "set_sequence")
+                unprescribed(lambda: gb.set_sequence(f, _mk_sequence("ambig", op[1]), op[2]), "set_sequence")
         elif name == "reload":
             f = reread(_written(f))
         o.label("op=" + name)
@@ -1423,7 +1613,10 @@ def st_general_io(tier):
         else:
             kinds = ["nuc", "ambig"]
         n = draw(st.integers(1, 4)) if many else 1
-        headers = draw(st.lists(st_header(), min_size=n, max_size=n, unique=True))
+        # real files are opened with the locale's encoding: ASCII headers only, so that the
+        # verdict does not depend on the environment (non-ASCII headers: the StringIO sub-checks)
+        ascii_header = st_header().map(lambda h: "".join(c for c in h if ord(c) < 128).strip())
+        headers = draw(st.lists(ascii_header, min_size=n, max_size=n, unique=True))
         entries = []
         narrowed = 0
         for h in headers:
@@ -1443,6 +1636,13 @@ def st_general_io(tier):
     return gen()
 
 
+import errno as _errno
+
+_RESOURCE_ERRNOS = {
+    getattr(_errno, n) for n in ("ENOSPC", "EMFILE", "ENFILE", "ENOMEM", "EDQUOT", "EIO", "EAGAIN") if hasattr(_errno, n)
+}
+
+
 def run_general_io(case):
     import os
     import tempfile
@@ -1453,6 +1653,17 @@ def run_general_io(case):
     for _ in range(case.get("narrowed_F1", 0)):
         o.exclude(F1)
     entries = case["entries"]
+    try:
+        return _run_general_io(o, case, entries, os, tempfile, seqio)
+    except OSError as e:
+        # the machine ran out of disk space / file handles: says nothing about biotite
+        if e.errno in _RESOURCE_ERRNOS:
+            o.invalid = True
+            return o
+        raise
+
+
+def _run_general_io(o, case, entries, os, tempfile, seqio):
     with tempfile.TemporaryDirectory(prefix="verif_C12_") as d:
         path = os.path.join(d, "file" + case["suffix"])
         if case["many"]:
